@@ -209,10 +209,128 @@ def run(ctx: C.Ctx):
             text_formats(ctx, case, x, Cls, built, src, key)
         finally:
             built.close()
+    shared_histories(ctx, reqs, pend)
+    spellings(ctx, reqs, pend)
     if ctx.model_available:
         outs = ctx.driver.run(reqs)
         for (case, impl_out, built), o in zip(pend, outs):
             compare_load(ctx, 'load-of-dump', case, impl_out, o, built)
+
+
+# --------------------------------------------------------------------------- several main classes over shared nested classes
+
+SH_BASE = 1_000_000
+WRAPS = ('bare', 'bare', 'optional', 'list', 'dictval', 'vtuple', 'pair')
+
+
+def _wrap(kind, t):
+    T = model.T
+    return {'bare': lambda: t, 'optional': lambda: T('optional', t), 'list': lambda: T('list', t), 'dictval': lambda: T('dict', T('str'), t),
+            'vtuple': lambda: T('vtuple', t), 'pair': lambda: T('tuple', T('int'), t)}[kind]()
+
+
+def _inject(rng, ty, ft):
+    """add a required field of type ft to class model ty (before the first defaulted field)"""
+    used = {f['name'] for f in ty['info']['fields']}
+    name = gen.field_name(rng, used)
+    fields = ty['info']['fields']
+    idx = next((i for i, f in enumerate(fields) if f.get('dflt') is not None), len(fields))
+    fields.insert(idx, {'name': name})
+    ty['ftys'].append([name, ft])
+
+
+def shared_case(rng):
+    """(holder model, [main models], [shared nested models], steps): 2–3 main classes with the same (v1_key_case, dump
+    transform) pair, each nesting one or two of 1–2 shared dataclasses (which have no Meta of their own) at a random
+    position; steps = the order in which the main classes are round-tripped (with repeats); in some cases the shared
+    classes carry the same settings and are round-tripped as main classes themselves, before / between the others"""
+    o_n = gen.Opts(meta_keys=[], leaves=gen.LEAVES_DEFAULT + ['bytes', 'bytearray'], meta_prob=0.0, wizard_prob=0.3, py_wizard_prob=0.0,
+                   allow_tagged_union=False)
+    o_m = gen.Opts(meta_keys=[], leaves=gen.LEAVES_DEFAULT + ['bytes', 'bytearray'], meta_prob=0.0, wizard_prob=0.8, py_wizard_prob=0.0,
+                   max_fields=3)
+    shared = [strip_shapes(gen.gen_cls(rng, rng.choice([0, 0, 1]), o_n)) for _ in range(rng.randint(1, 2))]
+    kc, dump = rng.choice(PAIRS)
+    meta = {'v1': True}
+    if kc is not None:
+        meta['v1_key_case'] = kc
+    if dump is not None:
+        meta['key_transform_with_dump'] = dump
+    mains = []
+    for _ in range(rng.randint(2, 3)):
+        ty = strip_shapes(gen.gen_cls(rng, rng.choice([0, 0, 1]), o_m))
+        for _k in range(rng.randint(1, 2)):
+            _inject(rng, ty, _wrap(rng.choice(WRAPS), rng.choice(shared)))
+        ty['info']['meta'] = dict(meta)
+        mains.append(ty)
+    steps = [['main', rng.randrange(len(mains))] for _ in range(rng.randint(3, 6))]
+    if len({k for _, k in steps}) < 2:
+        steps[-1] = ['main', (steps[0][1] + 1) % len(mains)]
+    if rng.random() < 0.4:
+        # the shared classes carry the same settings themselves and are also used as main classes (first, or in between)
+        for s_ in shared:
+            s_['info']['meta'] = dict(meta)
+        for q_ in range(len(steps)):
+            if rng.random() < (0.6 if q_ == 0 else 0.25):
+                steps[q_] = ['shared', rng.randrange(len(shared))]
+    every = mains + shared       # the holder only serves to define all classes in one module; it is never loaded
+    holder = {'k': 'cls', 'info': {'name': model.fresh('H'), 'fields': [{'name': f'm{i}'} for i in range(len(every))], 'wizard': False, 'meta': None},
+              'ftys': [[f'm{i}', m] for i, m in enumerate(every)]}
+    return holder, mains, shared, steps, (kc, dump)
+
+
+def shared_histories(ctx, reqs, pend):
+    """histories across several main classes: the v1 loader of a nested dataclass is generated once per main class that
+    reaches it, and the per-class tables one generation leaves behind are input of the next"""
+    import random
+    from dataclass_wizard import asdict, fromdict
+    rng = random.Random(f'{ctx.prop_id}:{ctx.seed}:shared')
+    n = ctx.quick(150, 2500)
+    ctx.rule += (' SHARED NESTED CLASSES: 2–3 main classes (one consistent (v1_key_case, dump transform) pair) nesting the same 1–2 dataclasses '
+                 'at random positions, round-tripped in a random order with repeats (3–6 steps): every step fromdict(asdict(x)) == x, '
+                 'through JSON text, and vs the Lean model.')
+    for j in range(n):
+        i = SH_BASE + j
+        if ctx.done(i):
+            break
+        holder, mains, shared, steps, pair = shared_case(rng)
+        try:
+            built = model.Built(holder)
+        except Exception as e:
+            ctx.count('build_error')
+            ctx.notes.setdefault('build_errors', []).append(repr(e)[:200])
+            continue
+        try:
+            tys = [(mains if w == 'main' else shared)[k] for w, k in steps]
+            xs = [gen.gen_instance(rng, t_, built) for t_ in tys]
+            if not ctx.begin_case(i):
+                continue
+            src = dict(src=built.source)
+            base = {'pair': list(pair), 'mains': [m['info']['name'] for m in mains], 'shared': [s_['info']['name'] for s_ in shared], 'steps': steps}
+            ctx.seen('shared-history', dict(base, tys=mains, insts=[repr(x)[:200] for x in xs]))
+            for step, (ty, x) in enumerate(zip(tys, xs)):
+                Cls = built.get(ty['info']['name'])
+                case = dict(base, step=step, ty=ty, inst=repr(x)[:500])
+                try:
+                    d = asdict(x)
+                except Exception as e:
+                    ctx.fail('shared-history:dump', case, f'step {step}: asdict raised {e!r}', detail=src)
+                    continue
+                key = _known_key(x)
+                out = load_outcome(lambda: fromdict(Cls, d))
+                pre = f'step {step} of {[w + str(k) for w, k in steps]} ({ty["info"]["name"]}, settings {pair}): '
+                check_rt(ctx, 'shared-history:dict', case, out, x, src, key, pre)
+                try:
+                    jd = json.loads(json.dumps(d))
+                except Exception:
+                    continue
+                out_j = load_outcome(lambda: fromdict(Cls, jd))
+                check_rt(ctx, 'shared-history:jsonified', case, out_j, x, src, key, pre)
+                st = model.StdTables()
+                st.add_json(jd)
+                reqs.append({'op': 'loadv1', 'ty': model.enc_ty(ty), 'doc': model.enc_j(jd), 'std': st.build()})
+                pend.append((case, out_j, built))
+        finally:
+            built.close()
 
 
 def _union_container_first(t):
@@ -246,9 +364,9 @@ def _known_key(x):
     return 'neg-timedelta' if walk(x) else None
 
 
-def check_rt(ctx, kind, case, out, x, src, key):
+def check_rt(ctx, kind, case, out, x, src, key, prefix=''):
     if out[0] == 'err':
-        ctx.fail(kind, case, f'load of the dumped instance raised {type(out[1]).__name__}: {str(out[1])[:300]}', key=key, detail=src)
+        ctx.fail(kind, case, f'{prefix}load of the dumped instance raised {type(out[1]).__name__}: {str(out[1])[:300]}', key=key, detail=src)
     elif not ref.same_typed(out[1], x):
         where = ref.first_diff(out[1], x)
         if key is None:
@@ -257,7 +375,7 @@ def check_rt(ctx, kind, case, out, x, src, key):
                 import re as _re
                 if _re.search(r': (list|set|frozenset|deque|tuple) .* vs (str|dict|OrderedDict|defaultdict) ', where):
                     key = 'v1-union-container-try-parse'
-        ctx.fail(kind, case, f'load(dump(x)) differs from x at {where} (loaded vs original)'[:1500], key=key, detail=src)
+        ctx.fail(kind, case, f'{prefix}load(dump(x)) differs from x at {where} (loaded vs original)'[:1500], key=key, detail=src)
 
 
 def text_formats(ctx, case, x, Cls, built, src, key):
@@ -308,3 +426,111 @@ def _has_nan(v):
     return False
 
 
+
+
+# --------------------------------------------------------------------------- transparent spellings of the same annotation
+
+SP_BASE = 2_000_000
+
+
+def respell(rng, t, p=0.3, top=True, qualified=False):
+    """the same type, spelled through PEP 695 aliases (`type X = ...`), `Annotated[.., 'note']` and `Required[..]` /
+    `NotRequired[..]` qualifiers at random positions of any depth: [qualifier] → Annotated[..]* → [alias] → type; returns
+    the respelled node and the number of wrappers added.
+    Left out, because loader generation fails for them on the unchanged library (recorded, not known findings yet):
+      * an alias whose value is itself an alias or an Annotated[..], and Annotated[..] under a spelled TypedDict qualifier
+        (wrappers are unwrapped once, in a fixed order) — /tmp/ag/B/findings/v1-alias-of-alias.md
+      * a wrapper directly around a Union member or around the value type of a DefaultDict —
+        /tmp/ag/B/findings/v1-spelled-union-member-and-defaultdict-value.md"""
+    T = model.T
+    k = t['k']
+    n = 0
+    if k == 'cls':
+        new = []
+        for nme, ft in t['ftys']:
+            ft2, m = respell(rng, ft, p, False)
+            n += m
+            new.append([nme, ft2])
+        t['ftys'] = new
+    elif k == 'namedtuple':
+        for f in t['fields']:
+            f[1], m = respell(rng, f[1], p, False)
+            n += m
+    elif k == 'typeddict':
+        if rng.random() < 0.5:
+            t['req_spelled'] = True
+        for f in t['fields']:
+            f[1], m = respell(rng, f[1], p, False, qualified=(not f[2]) or bool(t.get('req_spelled')))
+            n += m
+    elif 'a' in t:
+        new = []
+        for ix, x in enumerate(t['a']):
+            bare = k == 'union' or (k == 'defaultdict' and ix == 1)
+            x2, m = respell(rng, x, p, bare)
+            n += m
+            new.append(x2)
+        t['a'] = new
+    if top or k == 'none':
+        return t, n
+    if rng.random() < p:
+        t = T('alias', t, name=model.fresh('Al'))
+        n += 1
+    while not qualified and rng.random() < p:
+        t = T('annotated', t, note=rng.choice(['note', 'primary key', '']))
+        n += 1
+    return t, n
+
+
+def spellings(ctx, reqs, pend):
+    """the round trip again, on class models whose annotations are respelled (see `respell`); the oracle and the Lean
+    model see the plain type: a spelling never changes what is loaded, and loader generation never fails"""
+    import random
+    from dataclass_wizard import asdict, fromdict
+    rng = random.Random(f'{ctx.prop_id}:{ctx.seed}:spell')
+    n = ctx.quick(250, 4000)
+    ctx.rule += (' SPELLINGS: the same class models with PEP 695 `type X = ...` aliases, Annotated[.., note] and Required / NotRequired '
+                 'qualifiers wrapped around random positions (nested in each other): same round trip, compared with the model of the plain type.')
+    for j in range(n):
+        i = SP_BASE + j
+        if ctx.done(i):
+            break
+        spelled = make_case(rng)
+        spelled, nwrap = respell(rng, spelled, rng.choice([0.2, 0.35, 0.5]))
+        ty = model.plain_ty(spelled)
+        try:
+            built = model.Built(spelled)
+        except Exception as e:
+            ctx.count('build_error')
+            ctx.notes.setdefault('build_errors', []).append(repr(e)[:200])
+            continue
+        try:
+            x = gen.gen_instance(rng, ty, built)
+            if not ctx.begin_case(i):
+                continue
+            case = {'ty': ty, 'inst': repr(x)[:500], 'wrappers': nwrap}
+            ctx.seen('spelling', case, nontrivial=nwrap > 0)
+            Cls = built.root
+            src = dict(src=built.source)
+            try:
+                d = asdict(x)
+            except Exception as e:
+                ctx.fail('spelling:dump', case, f'asdict raised {e!r}', detail=src)
+                continue
+            key = _known_key(x)
+            out = load_outcome(lambda: fromdict(Cls, d))
+            check_rt(ctx, 'spelling:dict', case, out, x, src, key)
+            try:
+                jd = json.loads(json.dumps(d))
+            except Exception:
+                continue
+            out_j = load_outcome(lambda: fromdict(Cls, jd))
+            check_rt(ctx, 'spelling:jsonified', case, out_j, x, src, key)
+            st = model.StdTables()
+            st.add_json(jd)
+            reqs.append({'op': 'loadv1', 'ty': model.enc_ty(ty), 'doc': model.enc_j(jd), 'std': st.build()})
+            pend.append((case, out_j, built))
+            if hasattr(Cls, 'from_json'):
+                out = load_outcome(lambda: Cls.from_json(x.to_json()))
+                check_rt(ctx, 'spelling:json', case, out, x, src, key)
+        finally:
+            built.close()
